@@ -360,7 +360,11 @@ class Interp(ExprMixin):
 
     def bind(self, target, v, fr, tree_acc):
         """Bind an abstract value to an assignment target; returns extra effect tree."""
-        if fr.pc_taint and v.kind <= (INTLIKE | frozenset(["str", "none"])) and not v.taint:
+        local = isinstance(target, ast.Name) and fr.fi is not None and target.id not in fr.globals
+        if fr.pc_taint and v.kind <= (INTLIKE | frozenset(["str", "none"])) and not v.taint and not local:
+            # a value stored where it outlives the region carries the fact that the region ran.  A local does so only
+            # once control leaves the region: it is tainted at the join (implicit_flow), not inside the region, where
+            # `t = f(public); use(t)` means what `use(f(public))` means
             v = v.with_taint(True)
         if isinstance(target, ast.Name):
             if target.id in fr.globals or fr.fi is None:
@@ -482,10 +486,24 @@ class Interp(ExprMixin):
             fr.env = eb
         else:
             fr.env = self.join_env(ea, eb, tainted)
+            if tainted:
+                self.implicit_flow(fr, s.body + s.orelse)
         node = alt(tag, tainted, ta, tb)
         if tainted:
             self.record_tainted_alt(fr, s, "if", s.test, tag)
         return concat(t, node)
+
+    def implicit_flow(self, fr, stmts):
+        """Locals assigned inside a region governed by a tainted test are tainted once control has left the region."""
+        names = set()
+        for s in stmts:
+            for n in ast.walk(s):
+                if isinstance(n, ast.Name) and isinstance(n.ctx, ast.Store):
+                    names.add(n.id)
+        for nm in names:
+            v = fr.env.get(nm)
+            if isinstance(v, V) and not v.taint and v.kind <= (INTLIKE | frozenset(["str", "none"])):
+                fr.env[nm] = v.with_taint(True)
 
     def join_env(self, a, b, tainted=False):
         out = {}
@@ -501,9 +519,10 @@ class Interp(ExprMixin):
         """A wire-valued result produced under value-dependent control (for R-C06-5)."""
         tainted = sorted(n for n, v in fr.env.items() if isinstance(v, V) and v.taint and not _wireish(v))
         gov = [(id(c), norm(c), pol) for c, pol, t in fr.conds if t]
+        pub = [(id(c), norm(c), pol) for c, pol, t in fr.conds if not t]
         key = (fr.fq, stmt.lineno, stmt.col_offset, kind, name)
         self.wire_choices[key] = {"fi": fr.fi, "kind": kind, "name": name, "stmt": stmt, "value": value,
-                                  "tainted_names": tainted, "gov": gov}
+                                  "tainted_names": tainted, "gov": gov, "pub": pub}
 
     def record_tainted_alt(self, fr, node, kind, test, tag):
         self.alt_info[tag] = {"fi": fr.fi, "module": fr.module, "node": node, "kind": kind, "test": test}
@@ -544,6 +563,8 @@ class Interp(ExprMixin):
                     fr.pc_taint -= 1
                 fr.conds.pop()
             fr.env = self.join_env(before, fr.env)
+            if ivt:
+                self.implicit_flow(fr, s.body)
         body = subst_leaf(subst_leaf(body, BRK, END), CONT, END)
         if not has_events(body):
             body = subst_leaf(body, RET, END) if not _has_leaf(body, RAISE) else body
@@ -583,6 +604,8 @@ class Interp(ExprMixin):
                     fr.pc_taint -= 1
                 fr.conds.pop()
             fr.env = self.join_env(before, fr.env)
+            if tv.taint:
+                self.implicit_flow(fr, s.body)
         body = subst_leaf(subst_leaf(body, BRK, END), CONT, END)
         body = concat(tt, body)
         if not has_events(body) and not _has_leaf(body, RAISE) and not _has_leaf(body, RET):
